@@ -68,7 +68,7 @@ def run(name, patch, checks):
 def main():
     global _slots
     args = sys.argv[1:]
-    j, only, match, checks_override = 4, None, None, None
+    j, only, match, checks_override, base = 4, None, None, None, 0
     while args:
         a = args.pop(0)
         if a == '-j':
@@ -77,9 +77,11 @@ def main():
             only = args.pop(0)
         elif a == '--match':
             match = args.pop(0)
+        elif a == '--slot-base':
+            base = int(args.pop(0))
         elif a == '--checks':
             checks_override = args.pop(0).split(',')
-    _slots = list(range(j))
+    _slots = list(range(base, base + j))
     jobs = []
     if only in (None, 'seeds'):
         for d in sorted(glob.glob(os.path.join(V, 'seeded', 'C*-*'))):
